@@ -328,8 +328,10 @@ def path_conditions(node):
                 for b in blk:
                     if b is child:
                         break
-                    if isinstance(b, ast.If) and not b.orelse and b.body and isinstance(b.body[-1], (ast.Continue, ast.Break, ast.Return, ast.Raise)):
-                        out.append((b.test, False))
+                    if isinstance(b, ast.If) and b.body and isinstance(b.body[-1], (ast.Continue, ast.Break, ast.Return, ast.Raise)):
+                        out.append((b.test, False))         # the true branch leaves: behind it the test is false
+                    elif isinstance(b, ast.If) and b.orelse and isinstance(b.orelse[-1], (ast.Continue, ast.Break, ast.Return, ast.Raise)):
+                        out.append((b.test, True))          # the else branch leaves: behind it the test is true
         if isinstance(a, (ast.FunctionDef, ast.AsyncFunctionDef, ast.Lambda)):
             break
         child = a
